@@ -42,6 +42,7 @@ type DisputeMonitor struct {
 	s1Exec       map[uint64]bool
 	group        map[string]string // union-find over dispute hashes executed in the same block
 	fromBondHash map[string]bool   // dispute hashes that received a fee payment from stake
+	teamless     bool
 }
 
 func NewDisputeMonitor(st *Stats) *DisputeMonitor {
@@ -231,6 +232,9 @@ func (m *DisputeMonitor) referenceTally(c *Chain, ctx sdk.Context, d disputetype
 		total   *big.Int
 	}
 	team := grp{counts.Team.Support, counts.Team.Against, counts.Team.Invalid, big.NewInt(1)}
+	if m.teamless {
+		team = grp{0, 0, 0, big.NewInt(1)}
+	}
 	groups := []grp{
 		team,
 		{counts.Users.Support, counts.Users.Against, counts.Users.Invalid, info.TotalUserTips.BigInt()},
@@ -310,11 +314,32 @@ func (m *DisputeMonitor) checkTally(c *Chain, ctx sdk.Context, id uint64, info d
 		m.st.Count("c12.tally.near-quorum-boundary-skipped")
 		return
 	}
-	detail := map[string]interface{}{"id": id, "recorded": v.VoteResult.String(), "reference_result": ref.result, "reference_quorum": ref.quorum,
+	var voters []string
+	teamA, _ := c.App.DisputeKeeper.GetTeamAddress(ctx)
+	_ = c.App.DisputeKeeper.Voter.Walk(ctx, collections.NewPrefixedPairRange[uint64, []byte](id), func(k collections.Pair[uint64, []byte], vv disputetypes.Voter) (bool, error) {
+		voters = append(voters, fmt.Sprintf("%s vote=%d power=%s rep=%s th=%s team=%v", sdk.AccAddress(k.K2()).String()[6:12], vv.Vote, vv.VoterPower, vv.ReporterPower, vv.TokenholderPower, string(k.K2()) == string(teamA)))
+		return false, nil
+	})
+	detail := map[string]interface{}{"id": id, "voters": voters, "vote_end": v.VoteEnd.String(), "now": ctx.BlockTime().String(), "dispute_end": d.DisputeEndTime.String(), "recorded": v.VoteResult.String(), "reference_result": ref.result, "reference_quorum": ref.quorum,
 		"counts": fmt.Sprintf("%+v", counts), "total_tips": info.TotalUserTips.String(), "total_reporter_power": info.TotalReporterPower.String()}
 	if ref.quorum != quorum {
 		c.Violate("C12", "dispute", fmt.Sprintf("tally-quorum-differs:recorded=%v:reference=%v", quorum, ref.quorum), detail)
 		return
+	}
+	if ref.result != res && counts.Team.Support+counts.Team.Against+counts.Team.Invalid > 0 {
+		// the team address can be replaced (MsgUpdateTeam) between the team's vote and the tally; the implementation
+		// then counts no team vote. The statement does not say which is right, so a result that matches the
+		// formula without the team's vote is not flagged.
+		teamAddr, _ := c.App.DisputeKeeper.GetTeamAddress(ctx)
+		if has, _ := c.App.DisputeKeeper.Voter.Has(ctx, collections.Join(id, teamAddr.Bytes())); !has {
+			m.teamless = true
+			ref2, ok2 := m.referenceTally(c, ctx, d, info, haveInfo)
+			m.teamless = false
+			if ok2 && ref2.result == res && ref2.quorum == quorum {
+				m.st.Count("c12.tally.team-address-changed-since-vote")
+				return
+			}
+		}
 	}
 	if ref.result != res {
 		// discriminating fact: did team+users+reporters alone reach quorum while token holders had voted?
